@@ -564,6 +564,15 @@ fn theme_corner_recapture(t: &mut Tape) -> Option<GenPos> {
     finish(t, p, "theme_corner_recapture")
 }
 
+/// Theme: a legal position whose 64-bit key is 0, all ones, 1 or 2^63 - values a program might use as
+/// "no key yet" or might test for (constructed, see props/collide.rs).
+fn theme_special_key(t: &mut Tape) -> Option<GenPos> {
+    let base = crate::props::collide::kings_base(t);
+    let target = [0u64, 0, 0, !0u64, 1, 1 << 63][t.pick(6)];
+    let p = crate::props::collide::position_with_key(t, &base, target)?;
+    Some(GenPos { pos: p, src: "theme_special_key" })
+}
+
 /// Theme: promotions, also while in check (capture the checker by promoting, block by promoting).
 fn theme_promo(t: &mut Tape) -> Option<GenPos> {
     let mut p = Pos::empty();
@@ -1004,6 +1013,7 @@ pub fn gen_root(t: &mut Tape, mix: Mix) -> Option<GenPos> {
             10 => theme_check(t),
             _ => theme_random(t),
         },
+        Mix::General if t.pick(40) == 0 => theme_special_key(t),
         Mix::General => match t.pick(17) {
             16 => theme_corner_recapture(t),
             0 | 1 | 2 => root(t),
